@@ -76,18 +76,15 @@ Proof.
 Qed.
 
 (* bilinearity of the per-pixel sum *)
-Lemma charge_at_add_cube (a b : cube S) q i j :
-  charge_at (cube_add a b) q i j = (charge_at a q i j + charge_at (mkCube (cnk a) (cnr b) (cnc b) (cget b)) q i j)%K.
-Proof. unfold charge_at, cube_add. cbn [cnk cget]. rewrite <- sumZ_add. apply sumZ_ext. intros; ring. Qed.
 Lemma charge_at_scale_cube s (a : cube S) q i j :
   charge_at (cube_scale s a) q i j = (s * charge_at a q i j)%K.
-Proof. unfold charge_at, cube_scale. cbn [cnk cget]. rewrite <- sumZ_scale_l. apply sumZ_ext. intros; ring. Qed.
+Proof. unfold charge_at, cube_scale. cbn [cnk cget]. rewrite <- (sumZ_scale_l S Sring). apply sumZ_ext. intros; ring. Qed.
 Lemma charge_at_add_vec (c : cube S) p q i j :
   charge_at c (vec_add p q) i j = (charge_at c p i j + charge_at c q i j)%K.
-Proof. unfold charge_at, vec_add. cbn [vget]. rewrite <- sumZ_add. apply sumZ_ext. intros; ring. Qed.
+Proof. unfold charge_at, vec_add. cbn [vget]. rewrite <- (sumZ_add S Sring). apply sumZ_ext. intros; ring. Qed.
 Lemma charge_at_scale_vec s (c : cube S) q i j :
   charge_at c (vec_scale s q) i j = (s * charge_at c q i j)%K.
-Proof. unfold charge_at, vec_scale. cbn [vget]. rewrite <- sumZ_scale_l. apply sumZ_ext. intros; ring. Qed.
+Proof. unfold charge_at, vec_scale. cbn [vget]. rewrite <- (sumZ_scale_l S Sring). apply sumZ_ext. intros; ring. Qed.
 
 Lemma collect_charge_additive_cube (a b : cube S) nw (v : vec S) :
   cnk a = nw -> cnk b = nw -> vn v = nw ->
@@ -102,7 +99,7 @@ Proof.
   exists ra, rb, rab. repeat split; try assumption.
   - rewrite C2, A2. reflexivity.
   - rewrite C3, A3. reflexivity.
-  - intros i j. rewrite A4, B4, C4. cbn [as_cube cube_add cget]. rewrite <- sumZ_add. apply sumZ_ext. intros; ring.
+  - intros i j. rewrite A4, B4, C4. cbn [as_cube cube_add cget]. rewrite <- (sumZ_add S Sring). apply sumZ_ext. intros; ring.
 Qed.
 Lemma collect_charge_homogeneous_cube s (a : cube S) nw (v : vec S) :
   cnk a = nw -> vn v = nw ->
@@ -116,7 +113,7 @@ Proof.
   exists ra, rs. repeat split; try assumption.
   - rewrite C2, A2. reflexivity.
   - rewrite C3, A3. reflexivity.
-  - intros i j. rewrite A4, C4. cbn [as_cube cube_scale cget]. rewrite <- sumZ_scale_l. apply sumZ_ext. intros; ring.
+  - intros i j. rewrite A4, C4. cbn [as_cube cube_scale cget]. rewrite <- (sumZ_scale_l S Sring). apply sumZ_ext. intros; ring.
 Qed.
 Lemma collect_charge_additive_qe (img : imgrep S) nw (p q : vec S) :
   cnk (as_cube img) = nw -> vn p = nw -> vn q = nw ->
@@ -131,7 +128,7 @@ Proof.
   exists rp, rq, rpq. repeat split; try assumption.
   - rewrite C2, A2. reflexivity.
   - rewrite C3, A3. reflexivity.
-  - intros i j. rewrite A4, B4, C4. cbn [vec_add vget]. rewrite <- sumZ_add. apply sumZ_ext. intros; ring.
+  - intros i j. rewrite A4, B4, C4. cbn [vec_add vget]. rewrite <- (sumZ_add S Sring). apply sumZ_ext. intros; ring.
 Qed.
 Lemma collect_charge_homogeneous_qe s (img : imgrep S) nw (q : vec S) :
   cnk (as_cube img) = nw -> vn q = nw ->
@@ -145,7 +142,7 @@ Proof.
   exists rq, rs. repeat split; try assumption.
   - rewrite C2, A2. reflexivity.
   - rewrite C3, A3. reflexivity.
-  - intros i j. rewrite A4, C4. cbn [vec_scale vget]. rewrite <- sumZ_scale_l. apply sumZ_ext. intros; ring.
+  - intros i j. rewrite A4, C4. cbn [vec_scale vget]. rewrite <- (sumZ_scale_l S Sring). apply sumZ_ext. intros; ring.
 Qed.
 
 (* a scalar efficiency is the constant vector: q times the sum of the slices *)
@@ -160,17 +157,17 @@ Proof.
   destruct (collect_charge_spec img nw (mkVec nw (fun _ => q)) Hk eq_refl) as (b & B1 & B2 & B3 & B4).
   exists a, b. split; [exact A1|]. split; [exact B1|].
   assert (forall i j, get a i j = (q * sumZ nw (fun k => cget (as_cube img) k i j))%K) as Hv.
-  { intros i j. rewrite A4. unfold charge_at. cbn [vget]. rewrite Hk, <- sumZ_scale_l. apply sumZ_ext. intros; ring. }
+  { intros i j. rewrite A4. unfold charge_at. cbn [vget]. rewrite Hk, <- (sumZ_scale_l S Sring). apply sumZ_ext. intros; ring. }
   split; [|exact Hv]. unfold arr_eq. rewrite A2, A3, B2, B3. repeat split.
-  intros i j _ _. rewrite Hv, B4. cbn [vget]. rewrite <- sumZ_scale_l. apply sumZ_ext. intros; ring.
+  intros i j _ _. rewrite Hv, B4. cbn [vget]. rewrite <- (sumZ_scale_l S Sring). apply sumZ_ext. intros; ring.
 Qed.
 
 (* ------------------------------------------------------------------ colour filter array *)
-Lemma mosaic_get p ch nrow ncol os i j :
+Lemma mosaic_get (p : pattern) (ch nrow ncol os i j : Z) :
   get (mosaic (S:=S) p ch nrow ncol os) i j =
   if pch p ((i / os) mod pk p) ((j / os) mod pk p) =? ch then k1 else k0.
 Proof. reflexivity. Qed.
-Lemma mosaic_shape p ch os n a : 1 <= pk p -> 1 <= os -> 0 <= a -> n = pk p * os * a ->
+Lemma mosaic_shape (p : pattern) (os n a : Z) : 1 <= pk p -> 1 <= os -> 0 <= a -> n = pk p * os * a ->
   pk p * ((n / os) / pk p) * os = n.
 Proof.
   intros Hk Ho Ha ->. replace (pk p * os * a) with ((pk p * a) * os) by ring.
@@ -188,9 +185,9 @@ Proof.
   destruct (einsum_ki_ok c v Hk) as (e & E1 & E2 & E3 & E4). rewrite E1. cbn [rbind].
   unfold bmul.
   assert (nr (mosaic (S:=S) p ch (cnr c / os) (cnc c / os) os) = cnr c) as Hmr
-    by (cbn [mosaic repeat2 tile kernel nr]; eapply mosaic_shape; eauto).
+    by (cbn [mosaic repeat2 tile kernel nr]; apply (mosaic_shape p os (cnr c) a); assumption).
   assert (nc (mosaic (S:=S) p ch (cnr c / os) (cnc c / os) os) = cnc c) as Hmc
-    by (cbn [mosaic repeat2 tile kernel nc]; eapply mosaic_shape; eauto).
+    by (cbn [mosaic repeat2 tile kernel nc]; apply (mosaic_shape p os (cnc c) b); assumption).
   rewrite Hmr, Hmc, E2, E3, !bdim_same. cbn [rbind]. eexists. split; [reflexivity|]. cbn [nr nc get].
   repeat split. intros i j Hi Hj. rewrite !bidx_in by lia. rewrite E4, mosaic_get.
   destruct (_ =? ch); ring.
@@ -264,7 +261,245 @@ Proof.
   destruct (bayer_spec img nw q q q v v v pat p os a b) as (o & O1 & O2 & O3 & O4); try assumption.
   destruct (collect_charge_gen img nw q v Hk Hq) as (m & M1 & M2 & M3 & M4).
   exists o, m. split; [exact O1|]. split; [exact M1|]. unfold arr_eq. rewrite O2, O3, M2, M3. repeat split.
-  intros i j Hi Hj. rewrite O4, M4 by assumption. unfold qe_of. now destruct (_ =? 0), (_ =? 1).
+  intros i j Hi Hj. rewrite O4 by assumption. rewrite M4. unfold qe_of.
+  destruct (_ =? 0); [reflexivity|]. destruct (_ =? 1); reflexivity.
 Qed.
 
 End CollectP.
+
+(* ====================================================================================
+   adc
+   ==================================================================================== *)
+Local Open Scope Qc_scope.
+
+Lemma qis0_spec s : qis0 s = true <-> s = 0.
+Proof. unfold qis0. rewrite Qceq_alt. destruct (s ?= 0); split; congruence. Qed.
+Lemma qgt_spec x y : qgt x y = true <-> y < x.
+Proof. unfold qgt. change (y < x) with (x > y). rewrite Qcgt_alt. destruct (x ?= y); split; congruence. Qed.
+Lemma qgt_false x y : qgt x y = false <-> x <= y.
+Proof. unfold qgt. rewrite Qcle_alt. destruct (x ?= y); split; congruence. Qed.
+
+Lemma clip_is_spec sat e : sat <> Some 0 -> clip sat e = clip_spec sat e.
+Proof. intros H. unfold clip, clip_spec, sat_active. destruct sat as [s|]; [|reflexivity].
+  destruct (qis0 s) eqn:E; [|reflexivity]. apply qis0_spec in E. congruence. Qed.
+Lemma clip_none e : clip None e = e. Proof. reflexivity. Qed.
+Lemma clip_zero_capacity e : clip (Some 0) e = e. Proof. reflexivity. Qed.
+
+(* ---- the power cube contracted with the gain is the gain polynomial without constant term ---- *)
+Definition hstep (x acc c : Qc) : Qc := acc * x + c.
+Lemma polyval_snoc l c x : polyval (l ++ [c]) x = polyval l x * x + c.
+Proof. unfold polyval. rewrite fold_left_app. reflexivity. Qed.
+
+Lemma rpoly_horner (c : nat -> Qc) e m :
+  @sumn QcS m (fun d => Qcpower e (m - d) * c d) = polyval (map c (seq 0 m)) e * e.
+Proof.
+  induction m as [|m IH].
+  - cbn. ring.
+  - cbn [sumn]. rewrite seq_S, map_app. cbn [map Nat.add]. rewrite polyval_snoc.
+    rewrite (sumn_ext QcS m _ (fun d => e * (Qcpower e (m - d) * c d))).
+    + rewrite (sumn_scale_l QcS Qcrt). rewrite IH. replace (Datatypes.S m - m)%nat with 1%nat by lia.
+      cbn [kadd kmul K QcS Qcpower]. ring.
+    + intros i Hi. replace (Datatypes.S m - i)%nat with (Datatypes.S (m - i)) by lia. cbn [Qcpower kadd kmul K QcS]. ring.
+Qed.
+
+Lemma power_slice_pow n d e : (0 <= d < n)%Z -> power_slice n d e = Qcpower e (Z.to_nat n - Z.to_nat d).
+Proof.
+  intros H. unfold power_slice. destruct (d <? n - 1)%Z eqn:E.
+  - f_equal. lia.
+  - replace (Z.to_nat n - Z.to_nat d)%nat with 1%nat by lia. cbn. ring.
+Qed.
+
+Lemma gain_model_polyval n coef e :
+  gain_model n coef e = polyval (map coef (zrange n) ++ [0]) e.
+Proof.
+  rewrite polyval_snoc. unfold gain_model, zrange, sumZ. rewrite map_map.
+  rewrite <- (rpoly_horner (fun d => coef (Z.of_nat d)) e (Z.to_nat n)).
+  assert (forall x : Qc, x + 0 = x) as -> by (intros; ring).
+  apply (sumn_ext QcS). intros i Hi. rewrite power_slice_pow by lia. now rewrite Nat2Z.id.
+Qed.
+
+Lemma nth_map_seq {A} (f : nat -> A) m n d : (n < m)%nat -> nth n (map f (seq 0 m)) d = f n.
+Proof. intros H. rewrite (nth_indep _ d (f 0%nat)) by (now rewrite map_length, seq_length).
+  rewrite (map_nth f), seq_nth by assumption. reflexivity. Qed.
+Lemma map_nth_zrange (l : list Qc) :
+  map (fun d => nth (Z.to_nat d) l 0) (zrange (Z.of_nat (length l))) = l.
+Proof.
+  unfold zrange. rewrite Nat2Z.id, map_map.
+  apply (nth_ext _ _ 0 0).
+  - now rewrite map_length, seq_length.
+  - intros n Hn. rewrite map_length, seq_length in Hn.
+    rewrite nth_map_seq by assumption. now rewrite Nat2Z.id.
+Qed.
+
+(* the polynomial the einsum form of gain [g] applies at pixel (i,j) *)
+Lemma gcoef_poly g i j : g <> GN ->
+  map (fun d => gcoef g d i j) (zrange (gorder g)) = gain_poly g i j.
+Proof.
+  destruct g as [v|l|a|c|]; intros H; cbn [gcoef gorder gain_poly]; try reflexivity.
+  apply map_nth_zrange.
+Qed.
+
+(* ---- anyZ ---- *)
+Lemma anyn_spec n f : anyn n f = true <-> exists i, (i < n)%nat /\ f i = true.
+Proof.
+  induction n as [|n IH]; cbn [anyn].
+  - split; [discriminate|]. intros (i & Hi & _). lia.
+  - rewrite orb_true_iff, IH. split.
+    + intros [(i & Hi & Hf)|Hf]; [exists i|exists n]; split; auto; lia.
+    + intros (i & Hi & Hf). destruct (Nat.eq_dec i n) as [->|Hne]; [now right|]. left. exists i. split; [lia|assumption].
+Qed.
+Lemma anyZ_spec n f : anyZ n f = true <-> exists i, (0 <= i < n)%Z /\ f i = true.
+Proof.
+  unfold anyZ. rewrite anyn_spec. split.
+  - intros (i & Hi & Hf). exists (Z.of_nat i). split; [lia|assumption].
+  - intros (i & Hi & Hf). exists (Z.to_nat i). split; [lia|]. now rewrite Z2Nat.id by lia.
+Qed.
+
+Lemma saturated_spec sat img : sat <> Some 0 -> (saturated sat img = true <-> exceeds sat img).
+Proof.
+  intros H0. unfold saturated, exceeds, sat_active. destruct sat as [s|]; [|split; [discriminate|tauto]].
+  destruct (qis0 s) eqn:E; [apply qis0_spec in E; congruence|].
+  rewrite anyZ_spec. split.
+  - intros (i & Hi & Hf). apply anyZ_spec in Hf. destruct Hf as (j & Hj & Hf). apply qgt_spec in Hf. eauto.
+  - intros (i & j & Hi & Hj & Hf). exists i. split; [assumption|]. apply anyZ_spec. exists j. split; [assumption|].
+    now apply qgt_spec.
+Qed.
+
+(* ---- the four gain forms: DN = max(0, floor(poly(min(e, sat)))) at every pixel ---- *)
+Lemma adc_frame_get img g sat r c gr gc i j :
+  get (adc_frame img g sat r c gr gc) i j =
+  Z.max 0 (qfloor (gain_model (gorder g) (fun d => gcoef g d (bidx gr i) (bidx gc j))
+                     (clip sat (get img (bidx (nr img) i) (bidx (nc img) j))))).
+Proof. reflexivity. Qed.
+
+Lemma adc_ok img g sat warn : gain_fits g (nr img) (nc img) ->
+  exists dn, adc img g sat warn = Ok (warn && saturated sat img, dn) /\ nr dn = nr img /\ nc dn = nc img /\
+    forall i j, (0 <= i < nr img)%Z -> (0 <= j < nc img)%Z ->
+      get dn i j = Z.max 0 (qfloor (polyval (gain_poly g i j ++ [0]) (clip sat (get img i j)))).
+Proof.
+  intros Hf. unfold adc.
+  destruct g as [v|l|a|c|]; cbn [gain_fits] in Hf; try contradiction; cbn [gdims].
+  - eexists. split; [reflexivity|]. cbn [nr nc adc_frame]. repeat split. intros i j Hi Hj.
+    rewrite adc_frame_get, gain_model_polyval, !bidx_in by assumption.
+    rewrite (gcoef_poly (G0 v)) by discriminate. reflexivity.
+  - eexists. split; [reflexivity|]. cbn [nr nc adc_frame]. repeat split. intros i j Hi Hj.
+    rewrite adc_frame_get, gain_model_polyval, !bidx_in by assumption.
+    rewrite (gcoef_poly (G1 l)) by discriminate. reflexivity.
+  - destruct Hf as (Hr & Hc). rewrite Hr, Hc, !bdim_same. cbn [rbind]. eexists. split; [reflexivity|].
+    cbn [nr nc adc_frame]. repeat split; try congruence. intros i j Hi Hj.
+    rewrite adc_frame_get, gain_model_polyval. rewrite <- Hr, <- Hc, !bidx_in by assumption.
+    rewrite (gcoef_poly (G2 a)) by discriminate. reflexivity.
+  - destruct Hf as (Hr & Hc & Hk). rewrite Hr, Hc, !bdim_same. cbn [rbind]. eexists. split; [reflexivity|].
+    cbn [nr nc adc_frame]. repeat split; try congruence. intros i j Hi Hj.
+    rewrite adc_frame_get, gain_model_polyval. rewrite <- Hr, <- Hc, !bidx_in by assumption.
+    rewrite (gcoef_poly (G3 c)) by discriminate. reflexivity.
+Qed.
+
+Lemma adc_spec img g sat warn : gain_fits g (nr img) (nc img) -> sat <> Some 0 ->
+  exists w dn, adc img g sat warn = Ok (w, dn) /\ nr dn = nr img /\ nc dn = nc img /\
+    (forall i j, (0 <= i < nr img)%Z -> (0 <= j < nc img)%Z ->
+       get dn i j = dn_spec (gain_poly g i j) sat (get img i j) /\ (0 <= get dn i j)%Z) /\
+    (w = true <-> warn = true /\ exceeds sat img).
+Proof.
+  intros Hf H0. destruct (adc_ok img g sat warn Hf) as (dn & H1 & H2 & H3 & H4).
+  exists (warn && saturated sat img), dn. repeat split; try assumption.
+  - rewrite H4 by assumption. unfold dn_spec. now rewrite clip_is_spec.
+  - rewrite H4 by assumption. apply Z.le_max_l.
+  - apply andb_true_iff in H. tauto.
+  - apply saturated_spec; [assumption|]. apply andb_true_iff in H. tauto.
+  - intros (Hw & He). apply andb_true_iff. split; [assumption|]. now apply saturated_spec.
+Qed.
+
+(* error cases *)
+Lemma adc_bad_ndim img sat warn : adc img GN sat warn = Err ValueError.
+Proof. reflexivity. Qed.
+Lemma bdim_err a b : a <> b -> a <> 1%Z -> b <> 1%Z -> bdim a b = Err ValueError.
+Proof. intros. unfold bdim. destruct (a =? b)%Z eqn:E1; [lia|]. destruct (a =? 1)%Z eqn:E2; [lia|].
+  destruct (b =? 1)%Z eqn:E3; [lia|]. reflexivity. Qed.
+Lemma adc_gain_shape_mismatch img g sat warn gr gc : gdims g = Some (gr, gc) ->
+  (nr img <> gr /\ nr img <> 1 /\ gr <> 1)%Z \/ (nc img <> gc /\ nc img <> 1 /\ gc <> 1)%Z ->
+  adc img g sat warn = Err ValueError.
+Proof.
+  intros Hd H. unfold adc. destruct g as [v|l|a|c|]; cbn [gdims] in Hd; try discriminate; rewrite Hd.
+  all: destruct H as [(A & B & C)|(A & B & C)].
+  all: try (rewrite (bdim_err (nr img) gr) by assumption; reflexivity).
+  all: destruct (bdim (nr img) gr); cbn [rbind]; [|reflexivity].
+  all: rewrite (bdim_err (nc img) gc) by assumption; reflexivity.
+Qed.
+
+(* ---- monotonicity: floor . poly . min is non-decreasing for non-negative gain curves ---- *)
+Lemma Qc_mul_nonneg a b : 0 <= a -> 0 <= b -> 0 <= a * b.
+Proof. intros Ha Hb. replace 0 with (0 * b) by ring. now apply Qcmult_le_compat_r. Qed.
+Lemma Qc_add_nonneg a b : 0 <= a -> 0 <= b -> 0 <= a + b.
+Proof. intros Ha Hb. replace 0 with (0 + 0) by ring. now apply Qcplus_le_compat. Qed.
+Lemma Qc_mul_mono a1 a2 x y : 0 <= a1 -> a1 <= a2 -> 0 <= x -> x <= y -> a1 * x <= a2 * y.
+Proof.
+  intros H1 H2 H3 H4. apply Qcle_trans with (a2 * x).
+  - now apply Qcmult_le_compat_r.
+  - rewrite (Qcmult_comm a2 x), (Qcmult_comm a2 y). apply Qcmult_le_compat_r; [assumption|].
+    now apply Qcle_trans with a1.
+Qed.
+
+Lemma horner_mono l : Forall (fun c => 0 <= c) l -> forall a1 a2 x y,
+  0 <= a1 -> a1 <= a2 -> 0 <= x -> x <= y ->
+  0 <= fold_left (fun acc c => acc * x + c) l a1 /\
+  fold_left (fun acc c => acc * x + c) l a1 <= fold_left (fun acc c => acc * y + c) l a2.
+Proof.
+  induction 1 as [|c l Hc Hl IH]; intros a1 a2 x y H1 H2 H3 H4; cbn [fold_left].
+  - split; assumption.
+  - apply IH; try assumption.
+    + apply Qc_add_nonneg; [apply Qc_mul_nonneg|]; assumption.
+    + apply Qcplus_le_compat; [now apply Qc_mul_mono|apply Qcle_refl].
+Qed.
+
+Lemma polyval_mono l x y : Forall (fun c => 0 <= c) l -> 0 <= x -> x <= y -> polyval l x <= polyval l y.
+Proof. intros Hl Hx Hxy. unfold polyval. apply horner_mono; try assumption; apply Qcle_refl. Qed.
+
+Lemma qfloor_mono x y : x <= y -> (qfloor x <= qfloor y)%Z.
+Proof. intros H. unfold qfloor. apply Qfloor_resp_le. exact H. Qed.
+
+Lemma clip_spec_mono sat e1 e2 : 0 <= e1 -> e1 <= e2 ->
+  clip_spec sat e1 = clip_spec sat e2 \/ (0 <= clip_spec sat e1 /\ clip_spec sat e1 <= clip_spec sat e2).
+Proof.
+  intros H0 H12. unfold clip_spec. destruct sat as [s|]; [|now right]. unfold qmin.
+  destruct (qgt e1 s) eqn:E1; destruct (qgt e2 s) eqn:E2.
+  - now left.
+  - apply qgt_spec in E1. apply qgt_false in E2. exfalso.
+    apply (Qclt_not_le _ _ E1). now apply Qcle_trans with e2.
+  - right. split; [assumption|]. now apply qgt_false.
+  - now right.
+Qed.
+
+Lemma dn_spec_mono coefs sat e1 e2 : Forall (fun c => 0 <= c) coefs -> 0 <= e1 -> e1 <= e2 ->
+  (dn_spec coefs sat e1 <= dn_spec coefs sat e2)%Z.
+Proof.
+  intros Hc H0 H12. unfold dn_spec.
+  destruct (clip_spec_mono sat e1 e2 H0 H12) as [->|(Ha & Hb)]; [lia|].
+  apply Z.max_le_compat_l. apply qfloor_mono. apply polyval_mono; try assumption.
+  apply Forall_app. split; [assumption|]. constructor; [apply Qcle_refl|constructor].
+Qed.
+
+(* the frames of two inputs ordered pixel by pixel are ordered pixel by pixel *)
+Lemma adc_monotone img1 img2 g sat warn1 warn2 :
+  gain_fits g (nr img1) (nc img1) -> sat <> Some 0 -> nr img2 = nr img1 -> nc img2 = nc img1 ->
+  (forall i j, (0 <= i < nr img1)%Z -> (0 <= j < nc img1)%Z ->
+     Forall (fun c => 0 <= c) (gain_poly g i j) /\ 0 <= get img1 i j /\ get img1 i j <= get img2 i j) ->
+  exists w1 w2 d1 d2, adc img1 g sat warn1 = Ok (w1, d1) /\ adc img2 g sat warn2 = Ok (w2, d2) /\
+    forall i j, (0 <= i < nr img1)%Z -> (0 <= j < nc img1)%Z -> (get d1 i j <= get d2 i j)%Z.
+Proof.
+  intros Hf H0 Hr Hc Hle.
+  destruct (adc_spec img1 g sat warn1 Hf H0) as (w1 & d1 & A1 & _ & _ & A4 & _).
+  assert (gain_fits g (nr img2) (nc img2)) as Hf2 by (rewrite Hr, Hc; exact Hf).
+  destruct (adc_spec img2 g sat warn2 Hf2 H0) as (w2 & d2 & B1 & _ & _ & B4 & _).
+  exists w1, w2, d1, d2. repeat split; try assumption. intros i j Hi Hj.
+  destruct (A4 i j Hi Hj) as (-> & _). destruct (B4 i j) as (-> & _); try (rewrite ?Hr, ?Hc; assumption).
+  destruct (Hle i j Hi Hj) as (P & Q & R). now apply dn_spec_mono.
+Qed.
+
+(* zero capacity: `if saturation_capacity:` treats 0 like None, the frame is not clipped *)
+Lemma adc_zero_capacity_refuted :
+  exists img dn, adc img (G0 1) (Some 0) false = Ok (false, dn) /\
+    get dn 0%Z 0%Z = 5%Z /\ dn_spec (gain_poly (G0 1) 0 0) (Some 0) (get img 0%Z 0%Z) = 0%Z.
+Proof.
+  exists (@mkArr QcS 1 1 (fun _ _ => Q2Qc 5)). eexists. split; [reflexivity|]. split; vm_compute; reflexivity.
+Qed.
